@@ -459,6 +459,24 @@ theorem registered_waker_woken_exactly_on_completion (ops : Ops W) {s : St W} (h
   rw [hf] at this
   simpa using this
 
+/-- (f) with waker identities.  `lastWaker id` (ghost) = the waker passed to the LATEST `update_waker` made
+    while `id` was pending; `finalWakers ks id` = the wakers `set_result` woke for `id` (from the wake log).
+    In every reachable state: nobody is woken before completion; on completion exactly the latest registered
+    waker is woken, exactly once — never an older one (a future re-polled under a new waker, e.g. after being
+    moved into another task); with no registration nobody.  A pending slot holds precisely that latest waker. -/
+theorem latest_waker_woken_exactly_once (ops : Ops W) {s : St W} (h : Reachable ops s) (id : Id) :
+    finalWakers s.keys id = (if (s.keys.fin id).isEmpty then [] else (s.keys.lastWaker id).toList) ∧
+    (∀ w, s.keys.slot id = .pending w → w = s.keys.lastWaker id) := by
+  have hinv := (reachable_inv h).k
+  exact ⟨hinv.wakersEq id, hinv.lastReg id⟩
+
+/-- `update_waker(k, w)` on a pending operation REPLACES whatever waker was registered before -/
+theorem update_waker_replaces (ks : Keys) (id : Id) (w : WakerId) (old : Option WakerId)
+    (h : ks.slot id = .pending old) :
+    (ks.setWaker id w).slot id = .pending (some w) ∧ (ks.setWaker id w).lastWaker id = some w := by
+  refine ⟨by rw [setWaker_slot]; simp [h, Slot.setWaker], ?_⟩
+  rw [setWaker_lastWaker]; simp [h]
+
 /-- `Proactor::update_waker` on a pending operation registers the waker (so the completion will wake it) -/
 theorem update_waker_registers (ks : Keys) (id : Id) (w : WakerId) (w0 : Option WakerId)
     (h : ks.slot id = .pending w0) :
@@ -589,6 +607,12 @@ theorem iour_registered_waker_woken_exactly_on_completion {r : Ring} (h : RReach
   rw [hf] at this
   simpa using this
 
+theorem iour_latest_waker_woken_exactly_once {r : Ring} (h : RReachable r) (id : Id) :
+    finalWakers r.keys id = (if (r.keys.fin id).isEmpty then [] else (r.keys.lastWaker id).toList) ∧
+    (∀ w, r.keys.slot id = .pending w → w = r.keys.lastWaker id) := by
+  have hk := (rreachable_inv h).k
+  exact ⟨hk.wakersEq id, hk.lastReg id⟩
+
 theorem iour_exactly_once {r : Ring} (h : RReachable r) (id : Id) :
     (r.keys.fin id).length ≤ 1 ∧ (r.keys.dlv id).length ≤ 1 ∧
     (r.keys.dlv id = [] ∨ r.keys.dlv id = r.keys.fin id) ∧ r.keys.uaf = false := by
@@ -643,6 +667,13 @@ example :
      | .ok s => s.keys.dlv 0 == [.ok 5] && s.keys.fin 3 == [.ok 1] && s.keys.fin 1 == [.err ECANCELED] &&
                 s.queue 3 .write == [2] && s.queue 3 .read == [] && s.keys.woken 0 == 1 &&
                 (s.epoll 3).map (·.writable) == some true && (s.epoll 3).map (·.readable) == some false
+     | .error _ => false) = true := by decide
+
+/-- two wakers registered one after the other for the same pending operation: only the second is woken -/
+example :
+    (match run okOps (init ()) [.push 0 (.wait [(3, .read)]), .setWaker 0 7, .setWaker 0 8,
+                               .poll true [⟨3, true, false⟩]] with
+     | .ok s => finalWakers s.keys 0 == [8] && s.keys.lastWaker 0 == some 8 && s.keys.woken 0 == 1
      | .error _ => false) = true := by decide
 
 /-- error rollback: a `Read` on a regular file is refused by epoll; nothing stays registered -/
